@@ -6,26 +6,29 @@ package memoization
 
 //@ spec macro CachesEmpty(g *graphMemoizer) Bool = (forall k string :: {has(g.memN, k)} !has(g.memN, k)) && (forall k string :: {has(g.memP, k)} !has(g.memP, k)) && (forall k string :: {has(g.memO, k)} !has(g.memO, k)) && (forall k string :: {has(g.memT, k)} !has(g.memT, k)) && (forall k string :: {has(g.memE, k)} !has(g.memE, k))
 
-//@ props C19
+//@ props C19 C20
 // Writes: all five caches of this handle are empty before the write is forwarded.
 //@ func (g *graphMemoizer) AddTriples
 //@   opt strings opaque
 //@   requires g != nil && g.g != nil && g.#lock_mu == 0
-//@   modifies g.memN, g.memP, g.memO, g.memT, g.memE, g.#lock_mu, $added
+//@   modifies g.memN, g.memP, g.memO, g.memT, g.memE, g.#lock_mu, $added, $driverFailed
 //@   ensures[caches-cleared] CachesEmpty(g) && g.#lock_mu == 0
+//@   ensures[driver-error-surfaces@C20] $driverFailed && !old($driverFailed) ==> result != nil
 
 //@ func (g *graphMemoizer) RemoveTriples
 //@   opt strings opaque
 //@   requires g != nil && g.g != nil && g.#lock_mu == 0
-//@   modifies g.memN, g.memP, g.memO, g.memT, g.memE, g.#lock_mu
+//@   modifies g.memN, g.memP, g.memO, g.memT, g.memE, g.#lock_mu, $driverFailed
 //@   ensures[caches-cleared] CachesEmpty(g) && g.#lock_mu == 0
+//@   ensures[driver-error-surfaces@C20] $driverFailed && !old($driverFailed) ==> result != nil
 
 // Exist: a cached answer is returned as is; an answer is cached only when the wrapped graph reported no error.
 //@ func (g *graphMemoizer) Exist
 //@   opt strings opaque
 //@   requires g != nil && g.g != nil && g.memE != nil && g.#lock_mu == 0 && wfTriple(t)
-//@   modifies contents(g.memE), g.#lock_mu
+//@   modifies contents(g.memE), g.#lock_mu, $driverFailed
 //@   ensures[lock-released] g.#lock_mu == 0
+//@   ensures[driver-error-surfaces@C20] $driverFailed && !old($driverFailed) ==> result1 != nil
 //@   ensures[errors-are-not-cached] result1 != nil ==> (forall k string :: {has(g.memE, k)} has(g.memE, k) == old(has(g.memE, k))) && (forall k string :: {g.memE[k]} g.memE[k] == old(g.memE[k]))
 //@   ensures[cached-entries-kept] forall k string :: {has(g.memE, k)} old(has(g.memE, k)) ==> has(g.memE, k) && g.memE[k] == old(g.memE[k])
 
